@@ -494,8 +494,8 @@ func (c10) Classify(inAny any, obsAny any) []string {
 	if strings.Contains(joined, "%") && len(obs.Outs) == 1 {
 		out = append(out, "clienturl.percent_literal")
 	}
-	// F-C10-3: the substituted path begins with two slashes and is read as //authority
-	if u, ok := c10Substituted(in); ok && strings.HasPrefix(u, "//") && !strings.HasPrefix(u, "///") && len(obs.Outs) == 1 && !obs.Outs[0].Err {
+	// F-C10-3: the substituted path begins with two slashes and is read as //authority (segments lost, or an error for a bad host)
+	if u, ok := c10Substituted(in); ok && strings.HasPrefix(u, "//") && !strings.HasPrefix(u, "///") && len(obs.Outs) == 1 {
 		out = append(out, "clienturl.leading_double_slash")
 	}
 	// F-C10-4: stray braces in the pattern make the sequential replacement depend on the map order
